@@ -311,4 +311,11 @@ PROPS["C18"]["engines"] += [handlers("C18", 4000, 80000), universe("C18", 4000, 
 PROPS["C18"]["assumptions"].append(SV_NOTE)
 PROPS["C20"]["engines"].append({"engine": "compaction", "bin": "h1", "quick": ["-n", "20000"], "thorough": ["-n", "400000"]})
 
-HOOK_COMMITS = ["dfecdf5", "9779dc0"]
+PROPS["C03"]["engines"].append({"engine": "commitment", "bin": "h1", "quick": ["-n", "20000"], "thorough": ["-n", "400000"]})
+PROPS["C03"]["assumptions"].append("the commitment engine (C05's correspondence) and the membership gate monitor run here too: the permanence argument rests on commit = voter majority and on single-server configuration changes")
+
+SINKFAULT = {"engine": "sinkfault", "bin": "h1", "quick": ["-n", "400"], "thorough": ["-n", "10000"]}
+PROPS["C15"]["engines"].append(SINKFAULT)
+PROPS["C11"]["engines"].append(SINKFAULT)
+
+HOOK_COMMITS = ["dfecdf5", "9779dc0", "4292c91"]
